@@ -60,12 +60,39 @@ def _payload(spec: dict, n: int) -> bytes:
     return fill * n
 
 
+def _unterminated(case: dict) -> bytes:
+    """n bytes without a complete separator; `pattern` > 0 sprinkles lone separator prefixes (never the whole separator)"""
+    spec, n = case["spec"], case["n"]
+    sep = sers.separator(spec)
+    pat = case.get("pattern", 0)
+    if sep is None or pat == 0 or len(sep) < 2:
+        return _payload(spec, n)
+    fill = next(c for c in b"bcxyz" if c not in sep)
+    out = bytearray()
+    i = 0
+    while len(out) < n:
+        if i % pat == pat - 1:
+            out += sep[:1 + (i // pat) % (len(sep) - 1)]
+            out.append(fill)
+        else:
+            out.append(fill)
+        i += 1
+    out = bytes(out[:n])
+    while sep in out:
+        out = out.replace(sep, bytes([fill]) * len(sep))
+    if out.endswith(sep[:1]) and len(sep) > 1:
+        pass
+    return out
+
+
 def _stream(case: dict) -> bytes:
     spec = case["spec"]
     n = case["n"]
     k = sers.recv_spec(spec)["k"]
     sep = sers.separator(spec)
     p = _payload(spec, n)
+    if not case["terminated"] and case.get("pattern") and sep is not None:
+        return _unterminated(case)
     if not case["terminated"]:
         if k == "json" and sep is None:
             return b'"' + b"a" * max(n - 1, 0)        # a string that never closes
@@ -293,7 +320,8 @@ def generate(rng, tier: str, boost: int):
             cuts = [rng.choice([1, 2, 3, lim - 1, lim, lim + 1, 7, 20]) for _ in range(rng.randint(1, 8))]
             cuts = [c for c in cuts if c > 0] or [1]
         yield {"spec": spec, "path": path, "n": nn, "terminated": terminated, "cuts": cuts,
-               "hint": rng.choice([1, 2, 3, 8, 64, 16384])}
+               "hint": rng.choice([1, 2, 3, 8, 64, 16384]),
+               "pattern": 0 if terminated else rng.choice([0, 0, 2, 3, 5, 7])}
     if tier == "thorough":
         for lim in range(4, 17):
             for sephex in ("0a", "0d0a", "616162"):
